@@ -1,6 +1,7 @@
 ----------------------------- MODULE SerialMonMC -----------------------------
 (* Grids for SerialMon.  Texts are UTF-8 byte sequences of str(value): "", "42", "2.5", "True", "None", "hi",
-   a text containing a newline ("a\nb"), non-ASCII ("é"), "[1, 2]", "-7". *)
+   a text containing a newline ("a\nb"), non-ASCII ("é"), "[1, 2]", "-7", and texts that already end with a
+   terminator ("l\n", "\n", "a\r\n", "\r"). *)
 EXTENDS SerialMon
 NL == <<10>>
 CRLF == <<13, 10>>
@@ -12,8 +13,9 @@ CfgsQ   == {Cf(9600, "", NL, TRUE), Cf(115200, "COM4", CRLF, TRUE), Cf(9600, "",
 PortsDef == {"COM3", "/dev/ttyACM0"}
 PortsQ   == {"COM3"}
 TextsDef == {<<>>, <<52, 50>>, <<50, 46, 53>>, <<84, 114, 117, 101>>, <<78, 111, 110, 101>>, <<104, 105>>,
-             <<97, 10, 98>>, <<195, 169>>, <<91, 49, 44, 32, 50, 93>>, <<45, 55>>}
-TextsQ   == {<<>>, <<52, 50>>, <<50, 46, 53>>, <<84, 114, 117, 101>>, <<97, 10, 98>>, <<195, 169>>}
+             <<97, 10, 98>>, <<195, 169>>, <<91, 49, 44, 32, 50, 93>>, <<45, 55>>,
+             <<108, 10>>, <<10>>, <<97, 13, 10>>, <<13>>}      \* texts that already end with (part of) a line terminator
+TextsQ   == {<<>>, <<52, 50>>, <<50, 46, 53>>, <<84, 114, 117, 101>>, <<97, 10, 98>>, <<195, 169>>, <<108, 10>>, <<97, 13, 10>>}
 \* lines the backend delivers: nothing (timeout), "ok\n", "ok\r\n", "a\n\n", "\n", "x" (no terminator)
 LinesDef == {<<>>, <<111, 107, 10>>, <<111, 107, 13, 10>>, <<97, 10, 10>>, <<10>>, <<120>>}
 LinesQ   == {<<>>, <<111, 107, 13, 10>>, <<10>>}
